@@ -356,7 +356,7 @@ type c04Req struct {
 
 func c04Requests() (qs []c04Req) {
 	urls := []string{"http://example.org/ads", "https://sub.example.org/x?ads=1", "http://x.com/ads", "http://ads.example.com/", "http://EXAMPLE.org/ADS", "http://1.2.3.4/ads"}
-	srcs := []string{"", "http://example.org/", "http://sub.example.org/p", "http://notexample.org/", "http://example.com/", "http://google.com/", "https://www.google.co.uk/", "http://x.google.agoogle.com/", "http://agoogle.com/", "http://google.unknowntldx/", "http://a.sub.example.org/", "http://co.uk/", "http://example.local/", "http://www.example.local/"}
+	srcs := []string{"", "http://example.org/", "http://sub.example.org/p", "http://notexample.org/", "http://example.com/", "http://google.com/", "https://www.google.co.uk/", "http://x.google.agoogle.com/", "http://agoogle.com/", "http://google.unknowntldx/", "http://a.sub.example.org/", "http://co.uk/", "http://example.local/", "http://www.example.local/", "http://shop.example.com/", "http://a.shop.example.com/"}
 	types := []rules.RequestType{rules.TypeScript, rules.TypeImage, rules.TypeDocument, rules.TypeSubdocument}
 	for _, u := range urls {
 		for _, s := range srcs {
@@ -384,6 +384,14 @@ func c04Requests() (qs []c04Req) {
 					}
 				}
 			}
+		}
+	}
+	// host names made of hexadecimal digits and dots look like IP addresses to a cheap test
+	for _, h := range []string{"cafe.de", "dead.beef", "bad.cc", "fe80::1", "::1"} {
+		for _, dt := range []uint16{1, 28} {
+			q := rules.NewRequestForHostname(h)
+			q.DNSType = dt
+			qs = append(qs, c04Req{q, fmt.Sprintf("hostname=%s dnstype=%d", h, dt)})
 		}
 	}
 	return qs
@@ -421,7 +429,7 @@ type c04Slot struct {
 
 func c04Slots() []c04Slot {
 	return []c04Slot{
-		{"domain", []nv{{"example.org", false}, {"sub.example.org", true}, {"example.com", false}, {"google.*", false}, {"www.google.*", true}, {"co.uk", false}, {"example.*", false}, {"example.local", false}},
+		{"domain", []nv{{"example.org", false}, {"sub.example.org", true}, {"example.com", false}, {"google.*", false}, {"www.google.*", true}, {"co.uk", false}, {"example.*", false}, {"example.local", false}, {"shop.example.com", false}, {"example.com", true}},
 			func(r *c04Rule, vs []nv) { r.domains = vs }},
 		{"client", []nv{{"127.0.0.1", false}, {"192.168.0.0/24", true}, {"fe80::/10", false}, {"Frank's laptop", false}, {"a,b", false}, {"Mom", false}, {"Dad", true}, {"x|y", true}, {"192.168.0.0/16", false}, {"10.0.0.1", false}},
 			func(r *c04Rule, vs []nv) { r.clients = vs }},
@@ -476,7 +484,7 @@ func c04Run(c *Ctx, qs []c04Req, only string) {
 				for i, k := range s {
 					vs[i] = slot.alpha[k]
 				}
-				for _, pat := range []string{"||example.org^", "ads"} {
+				for _, pat := range []string{"||example.org^", "ads", "a"} {
 					r := c04Rule{pattern: pat}
 					slot.apply(&r, vs)
 					jobs = append(jobs, job{r, slot.name})
@@ -548,7 +556,7 @@ func c04Run(c *Ctx, qs []c04Req, only string) {
 	c.Run.Set("requests", int64(len(qs)))
 	c.Run.Set("evaluations", evals)
 	c.Run.Set("distinct_nontrivial", nrules)
-	c.Run.Set("rule", fmt.Sprintf("layer 1: for each of 6 value-list modifiers every ordered value list of length 1..%d over its alphabet (all permutations included) on two patterns; layer 2: the full product absent/representative-1/representative-2 over 9 modifier slots on three patterns; each rule against %d requests (6 URLs x 14 sources x 4 types; 3 hostnames x 3 DNS types x 6 client names x 5 client addresses x 5 tag sets); distinct_nontrivial = distinct rules accepted by the parser", maxVals, len(qs)))
+	c.Run.Set("rule", fmt.Sprintf("layer 1: for each of 6 value-list modifiers every ordered value list of length 1..%d over its alphabet (all permutations included) on three patterns; layer 2: the full product absent/representative-1/representative-2 over 9 modifier slots on three patterns; each rule against %d requests (6 URLs x 16 sources x 4 types; 3 hostnames x 3 DNS types x 6 client names x 5 client addresses x 5 tag sets); distinct_nontrivial = distinct rules accepted by the parser", maxVals, len(qs)))
 	c.Run.Set("exhaustive", exhaustive)
 	c.Run.Assumption("request fields (hostnames, third-party) are taken from rules.NewRequest; their correctness is property C17")
 	c.Run.Assumption("the pattern reference is the C03 mask automaton run on the URL, or on the bare hostname for hostname requests unless the pattern starts with ||, http://, https:// or ://")
